@@ -5,7 +5,8 @@ booleans, numbers, empty containers), arrays, path/condition/length/membership q
 of spec/JsonDoc.tla (Path, Compare, Truthy, Contains, Length, ArrayAnswer), the expected answer of every query
 on every document.  The harness stores the documents in a real SQLite database and runs every query through
 pony twice: with the JSON1 functions (`provider.json1_available` True) and with it forced False (py_json_*
-fallbacks), with the keys/constants written in the query and passed as parameters, and compares row by row.
+fallbacks), with the keys/constants written in the query and passed as parameters (also two paths in one query sharing
+a parameter and differing in a constant key), and compares row by row.
 Where Python would raise (missing key, ordering of unlike types, ...) conditions are not compared and a
 selected path must be None.  Queries pony refuses to translate are accepted.
 
